@@ -19,7 +19,9 @@ def run(rep, tier):
     linalg.r_lu_checked(rep, f)
     linalg.r_jac_refresh(rep, f)
     linalg.r_bdf_matrix(rep, f)
-    radau.r_radau_const(rep, f)
+    ex = radau.r_radau_const(rep, f)
+    rep.rule("R-RADAU-START", "Newton's starting values are the previous collocation polynomial continued to the new stage points: z_j = u_prev(1 + c_j*h/h_prev) - y as polynomial identities, h_prev the step accepted last")
+    radau.r_radau_start(rep, f, ex if isinstance(ex, dict) and not ex.get("problems") else None)
     rep.explanation = ("Decides exactly the three failure classes the property's rationale names: a broken Newton iteration (right-hand sides / matrices assembled with the wrong constants), "
                        "wrong transformation constants, and stale LU factors. NOT decided: Success on stiff problems, step counts independent of stiffness, preservation of invariants - "
                        "behaviour of the nonlinear iteration on data.")
